@@ -609,6 +609,22 @@ impl<'a, R: ?Sized + std::io::BufRead> Tokenizer<'a, R> {
         self.next_token_until(None, false /* include space? */)
     }
 
+    /// Sets aside the here-documents announced so far on the current line, for the time an
+    /// expansion nested in one of its words is scanned: the tokens inside `$(...)`, `${...}`
+    /// or `$[...]` belong to that word, and a here-document inside has its own body there.
+    fn suspend_here_docs(&mut self) -> (HereState, Vec<HereTag>) {
+        (
+            std::mem::take(&mut self.cross_state.here_state),
+            std::mem::take(&mut self.cross_state.current_here_tags),
+        )
+    }
+
+    /// Puts back what `suspend_here_docs` set aside.
+    fn resume_here_docs(&mut self, (here_state, here_tags): (HereState, Vec<HereTag>)) {
+        self.cross_state.here_state = here_state;
+        self.cross_state.current_here_tags = here_tags;
+    }
+
     /// Consumes a nested construct (e.g., `$((...))` or `$[...]`), handling nested delimiters
     /// and here-documents.
     ///
@@ -960,7 +976,9 @@ impl<'a, R: ?Sized + std::io::BufRead> Tokenizer<'a, R> {
                                 self.cross_state.arithmetic_expansion = true;
                             }
 
+                            let outer_here_docs = self.suspend_here_docs();
                             self.consume_nested_construct(&mut state, ')', "(", initial_nesting)?;
+                            self.resume_here_docs(outer_here_docs);
 
                             if is_arithmetic {
                                 self.cross_state.arithmetic_expansion = false;
@@ -978,7 +996,9 @@ impl<'a, R: ?Sized + std::io::BufRead> Tokenizer<'a, R> {
                             // some text will be interpreted differently as a result.
                             self.cross_state.arithmetic_expansion = true;
 
+                            let outer_here_docs = self.suspend_here_docs();
                             self.consume_nested_construct(&mut state, ']', "[", 1)?;
+                            self.resume_here_docs(outer_here_docs);
 
                             self.cross_state.arithmetic_expansion = false;
                         }
@@ -992,6 +1012,7 @@ impl<'a, R: ?Sized + std::io::BufRead> Tokenizer<'a, R> {
 
                             let mut pending_here_doc_tokens = vec![];
                             let mut drain_here_doc_tokens = false;
+                            let outer_here_docs = self.suspend_here_docs();
 
                             loop {
                                 let cur_token = if drain_here_doc_tokens
@@ -1057,6 +1078,8 @@ impl<'a, R: ?Sized + std::io::BufRead> Tokenizer<'a, R> {
                                     _ => (),
                                 }
                             }
+
+                            self.resume_here_docs(outer_here_docs);
                         }
                         _ => {
                             // This is either a different character, or else the end of the string.
